@@ -131,6 +131,7 @@ CHECKS = {
 
 NA = {
     "C03": "Equality of two concrete texts per program: no input/schedule/state dimension for a solver to quantify over, and the reader/writer cannot be executed symbolically (fparser2 regex/dict machinery realises every symbol).",
+    "C04": "Declared-exactly-once / declared-before-use / compiles-with-implicit-none is a static scoping and ordering property of one concrete text, decided by a compiler front end, not by a solver: no input, schedule or state to quantify over. The only value-dependent clause (a renamed inner-scope symbol capturing another reference when scopes merge) is decided by the translation validation of C05/C06/C07, and their harnesses (and C01's) additionally report written or transformed code that gfortran -fimplicit-none rejects (the seeded C04 change is caught there), but that by-product is not a solver verdict, so C04 itself is not claimed.",
     "C10": "Quantifies over transformation histories against a structural nesting grammar; no data inputs to make symbolic; CrossHair over choice integers degenerates into enumeration at 50-100x slowdown.",
     "C15": "Heap identity/aliasing property of Python object graphs under edit histories; no value domain for SMT; outside CrossHair's reach on PSyIR objects.",
     "C21": "Two concrete positional lists per metadata file; metadata is parsed by fparser2 and cannot be made symbolic; no run-time value for a solver to decide.",
